@@ -215,18 +215,31 @@ def wake1(ctx, facts, b, dom, exception):
 def check_mt(ctx, facts, b):
     ctx.count(bodies=1)
     dom = b.dominators()
-    ctx.rule("LOOP-refill(mt): refill while spawner.remaining() < capacity")
-    found = False
-    for bb in sorted(b.live_blocks()):
-        t = b.term(bb)
-        if t["k"] != "switch":
-            continue
-        e = flow.expr_of(b, t["o"])
-        if e[0] == "bin" and "remaining" in str(e[2]) and "capacity" in str(e[3]):
-            found = True
-            ctx.ob("LOOP-refill", "condition", e[1] == "Lt", f"refill condition {e[1]}(remaining, capacity)", site_of(b, bb))
-    if not found:
-        ctx.missing("LOOP-refill", "remaining() < capacity loop condition (multi_thread)")
+    ctx.rule("LOOP-refill(mt): the source is polled for another future exactly while spawner.remaining() < capacity - the comparisons between remaining() and capacity that dominate the poll of the source, evaluated for 0 <= remaining <= 5 and 1 <= capacity <= 5, hold iff remaining < capacity (whatever form the loop and its exit test have)")
+    from rules.C13 import guard_holds, NoEval
+    srcp = [(bb, t) for bb, t in flow.find_calls(b, re.compile(r"Stream::poll_next$")) if "source" in flow.field_names_in(flow.expr_of(b, t["args"][0]))]
+    if not srcp:
+        ctx.missing("LOOP-refill", "poll of the source stream (multi_thread)")
+    else:
+        sbb = srcp[0][0]
+        gs = [f for tgt, f in flow.edge_guards(b) if flow.dominates(dom, tgt, sbb) and f[2] is not None and "remaining" in str(f) and "capacity" in str(f)]
+        why = None
+        if not gs:
+            why = "the source is polled without any test of remaining() against the capacity: unbounded spawning"
+        else:
+            try:
+                for r_ in range(0, 6):
+                    for c_ in range(1, 6):
+                        env = {}
+                        for op, l, r in gs:
+                            env[l] = r_ if "remaining" in str(l) else c_
+                            env[r] = r_ if "remaining" in str(r) else c_
+                        on = all(guard_holds(f, env) for f in gs)
+                        if on != (r_ < c_) and why is None:
+                            why = f"with {r_} futures in flight and capacity {c_} the source is {'polled' if on else 'not polled'}: the window is not `remaining < capacity`"
+            except (NoEval, KeyError):
+                why = "cannot evaluate the refill condition"
+        ctx.ob("LOOP-refill", "condition", why is None, "refill exactly while remaining() < capacity" if why is None else why, site_of(b, sbb))
     # END-done: the join may end (Ready(None) / forwarding the spawner's None) only when the source is done
     ctx.rule("END-done(mt): the spawner is polled only while it has work (remaining() > 0); with no work left the stream ends only on source.is_done(), otherwise it stays Pending")
     sp = [(bb, t) for bb, t in flow.find_calls(b, re.compile(r"Stream::poll_next$")) if "spawner" in flow.field_names_in(flow.expr_of(b, t["args"][0]))]
@@ -281,8 +294,37 @@ def chain(ctx, facts):
     ctx.floor("CHAIN", "validate_record calls in validated_seq_join", len(vr), 1)
     for k, (b, bb, t) in enumerate(vr):
         e = flow.expr_of(b, t["args"][1])
-        ok = e[0] == "call" and e[1].endswith("From::from") and e[2][0][:2] == ("upvar", "index")
-        ctx.ob("CHAIN", f"validates-own-index#{k}", ok, f"record id = {str(e)[:120]}", site_of(b, bb))
+        # positional, not by name: the captured variable is followed outwards through the closures until it turns out to
+        # be component 0 of the parameter of the closure given to `.enumerate().map(..)`
+        ok = False
+        trail = str(e)[:120]
+        if e[0] == "call" and re.search(r"(From::from|Into::into)$", e[1]):
+            from rules.C06 import upvar_sources
+            cur, v = b, flow.strip_casts(e[2][0])
+            for _ in range(6):
+                if v[0] == "upvar":
+                    parent = facts.bodies.get(cur.path.rsplit("::{closure", 1)[0])
+                    if parent is None:
+                        break
+                    v = flow.strip_casts(upvar_sources(facts, parent, cur.path).get(v[1], ("?",)))
+                    cur = parent
+                    continue
+                break
+            is_param0 = (v[0] == "arg" and v[1:] in ((2, 0), (2, "0"))) or (v[0] == "proj" and v[1][:2] == ("arg", 2) and v[2:] in ((0,), ("0",)))
+            if is_param0 and top is not None:
+                old_cd = flow.CLOSURE_DEFS
+                flow.CLOSURE_DEFS = True
+                try:
+                    for mbb, mt in top.calls():
+                        if (F.callee(mt)[0] or "").endswith("StreamExt::map") and len(mt["args"]) == 2:
+                            recv = str(flow.expr_of(top, mt["args"][0], max_depth=6))
+                            cl = flow.expr_of(top, mt["args"][1], max_depth=4)
+                            if "StreamExt::enumerate" in recv and cl[0] == "agg" and isinstance(cl[1], tuple) and cl[1][1] == cur.path:
+                                ok = True
+                finally:
+                    flow.CLOSURE_DEFS = old_cd
+            trail = f"{str(e)[:60]} <- {str(v)[:60]} in {cur.path.split('::')[-1]}"
+        ctx.ob("CHAIN", f"validates-own-index#{k}", ok, f"record id = the position of the item in the enumerated source ({trail})" if ok else f"the record validated after an item is not that item's own position in the enumerated source ({trail})", site_of(b, bb))
         # its result is ?-propagated: the awaited output reaches Try::branch
         has_q = any(F.call_matches(tt, re.compile(r"Try::branch$")) for _, tt in b.calls())
         ctx.ob("CHAIN", f"validation-error-propagates#{k}", has_q, "validate_record result goes through `?`", site_of(b, bb))
